@@ -1,0 +1,244 @@
+//go:build verif
+
+package list
+
+// Machine-checked contracts for the gowp verifier (/verif). Comment-only; compiled only under the
+// build tag "verif"; declares nothing.
+//
+// A list is stored as a []string under its key; lst(params, k) is the stored value of key k in the command's database.
+
+//@ spec ldb(params internal.HandlerFuncParams) int = dbof(params.Context)
+//@ spec lval(params internal.HandlerFuncParams, k string) any = $srv.store[dbof(params.Context)][k].Value
+
+//@ spec lkey(params internal.HandlerFuncParams) string = old(params.Command[1])
+//@ spec live(params internal.HandlerFuncParams, k string) bool = sugardb.livekey($srv, dbof(params.Context), k, $now)
+//@ spec islist(v any) bool = istype(v, "[]string")
+//@ spec aslist(v any) []string = astype(v, "[]string")
+// nidx: a negative index counts from the tail.
+//@ spec nidx(n int, i int) int = i < 0 ? n + i : i
+// the keyspace is only read: keys stay what they were, apart from expired keys being collected
+//@ spec lpure(params internal.HandlerFuncParams) bool = forall k string :: has($srv.store[dbof(params.Context)], k) ==> old(has($srv.store[dbof(params.Context)], k)) && $srv.store[dbof(params.Context)][k] == old($srv.store[dbof(params.Context)][k])
+
+//@ func handleLLen props C15,C12,C13
+//@   requires generic.henv(params)
+//@   assumes own-cmd: len(params.Command) >= 2 ==> disjointarr(params.Command, $srv.keysWithExpiry.keys[dbof(params.Context)])
+//@   ensures {C15} arity: len(params.Command) != 2 ==> result1 != nil
+//@   ensures {C15} absent: len(params.Command) == 2 && !old(live(params, lkey(params))) ==> result1 == nil && bstr(result0) == ":0\r\n"
+//@   ensures {C15} length: len(params.Command) == 2 && old(live(params, lkey(params))) && old(islist(lval(params, lkey(params)))) ==> result1 == nil && bstr(result0) == ":" ++ itoa(old(len(aslist(lval(params, lkey(params)))))) ++ "\r\n"
+//@   ensures {C15} wrongtype: len(params.Command) == 2 && old(live(params, lkey(params))) && !old(islist(lval(params, lkey(params)))) ==> result1 != nil
+//@   ensures {C13,C15} pure: lpure(params)
+
+// the list stored under the command's key on entry
+//@ spec l0(params internal.HandlerFuncParams) []string = old(aslist(lval(params, lkey(params))))
+//@ spec onlist(params internal.HandlerFuncParams) bool = old(live(params, lkey(params))) && old(islist(lval(params, lkey(params))))
+// a reader leaves the elements of the list as they were
+//@ spec lcontent(params internal.HandlerFuncParams) bool = onlist(params) ==> (forall i int :: 0 <= i && i < len(l0(params)) ==> l0(params)[i] == old(aslist(lval(params, lkey(params)))[i]))
+//@ spec bulk(s string) string = "$" ++ (itoa(len(s)) ++ ("\r\n" ++ (s ++ "\r\n")))
+
+//@ func handleLIndex props C15,C12,C13
+//@   requires generic.henv(params)
+//@   assumes own-cmd: len(params.Command) >= 2 ==> disjointarr(params.Command, $srv.keysWithExpiry.keys[dbof(params.Context)])
+//@   assumes own-list: len(params.Command) >= 2 && islist(lval(params, lkey(params))) ==> disjointarr(aslist(lval(params, lkey(params))), $srv.keysWithExpiry.keys[dbof(params.Context)])
+//@   ensures {C15} arity: len(params.Command) != 3 ==> result1 != nil
+//@   ensures {C15} absent: len(params.Command) == 3 && !old(live(params, lkey(params))) ==> result1 == nil && bstr(result0) == "$-1\r\n"
+//@   ensures {C15} wrongtype: len(params.Command) == 3 && old(live(params, lkey(params))) && !old(islist(lval(params, lkey(params)))) ==> result1 != nil
+//@   ensures {C15} badindex: len(params.Command) == 3 && onlist(params) && !atoiok(params.Command[2]) ==> result1 != nil
+//@   ensures {C15} outofrange: len(params.Command) == 3 && onlist(params) && atoiok(params.Command[2]) && !(0 <= nidx(len(l0(params)), atoi(params.Command[2])) && nidx(len(l0(params)), atoi(params.Command[2])) < len(l0(params))) ==> result1 == nil && bstr(result0) == "$-1\r\n"
+//@   ensures {C15} element: len(params.Command) == 3 && onlist(params) && atoiok(params.Command[2]) && 0 <= nidx(len(l0(params)), atoi(params.Command[2])) && nidx(len(l0(params)), atoi(params.Command[2])) < len(l0(params)) ==> result1 == nil && bstr(result0) == bulk(old(aslist(lval(params, lkey(params)))[nidx(len(aslist(lval(params, lkey(params)))), atoi(params.Command[2]))]))
+//@   ensures {C13,C15} pure: lpure(params)
+//@   ensures {C13,C15} content: lcontent(params)
+
+// LRANGE: lo / hi are the clamped bounds (negative indices count from the tail).
+//@ spec lo(n int, s int) int = s < 0 ? (n + s < 0 ? 0 : n + s) : s
+//@ spec hi(n int, e int) int = e < 0 ? n + e : (e >= n ? n - 1 : e)
+
+//@ func handleLRange props C15,C12,C13
+//@   requires generic.henv(params)
+//@   assumes own-cmd: len(params.Command) >= 2 ==> disjointarr(params.Command, $srv.keysWithExpiry.keys[dbof(params.Context)])
+//@   assumes own-list: len(params.Command) >= 2 && islist(lval(params, lkey(params))) ==> disjointarr(aslist(lval(params, lkey(params))), $srv.keysWithExpiry.keys[dbof(params.Context)])
+//@   ensures {C15} arity: len(params.Command) != 4 ==> result1 != nil
+//@   ensures {C15} absent: len(params.Command) == 4 && !old(live(params, lkey(params))) ==> result1 == nil && bstr(result0) == "*0\r\n"
+//@   ensures {C15} wrongtype: len(params.Command) == 4 && old(live(params, lkey(params))) && !old(islist(lval(params, lkey(params)))) ==> result1 != nil
+//@   ensures {C15} badindex: len(params.Command) == 4 && onlist(params) && (!atoiok(params.Command[2]) || !atoiok(params.Command[3])) ==> result1 != nil
+//@   ensures {C15} empty: len(params.Command) == 4 && onlist(params) && atoiok(params.Command[2]) && atoiok(params.Command[3]) && (lo(len(l0(params)), atoi(params.Command[2])) > hi(len(l0(params)), atoi(params.Command[3])) || lo(len(l0(params)), atoi(params.Command[2])) >= len(l0(params))) ==> result1 == nil && bstr(result0) == "*0\r\n"
+//@   ensures {C15} nonempty: len(params.Command) == 4 && onlist(params) && atoiok(params.Command[2]) && atoiok(params.Command[3]) ==> result1 == nil
+//@   ensures {C13,C15} pure: lpure(params)
+//@   ensures {C13,C15} content: lcontent(params)
+//@   loop 0
+//@     invariant {C15} range: onlist(params) && list == l0(params) && start == lo(len(list), atoi(params.Command[2])) && end == hi(len(list), atoi(params.Command[3])) && 0 <= start && start <= i && i <= end + 1 && end < len(list)
+//@     invariant {C15} header: i == start ==> res == "*" ++ (itoa(end - start + 1) ++ "\r\n")
+//@     invariant lpure(params) && lcontent(params)
+//@     iteration {C15} step: i == atheader(i) + 1
+//@     iteration {C15} element: res == atheader(res) ++ bulk(list[atheader(i)])
+
+// ---- writers ----------------------------------------------------------------------------------
+// lnow: the list stored under the command's key now.
+// the i-th word of the command (as it was on entry)
+//@ spec carg(params internal.HandlerFuncParams, i int) string = old(params.Command[i])
+// stored lists own their backing arrays: no two keys of the database share one
+//@ spec lown(params internal.HandlerFuncParams) bool = forall a string, b string :: a != b && islist(lval(params, a)) && islist(lval(params, b)) ==> disjointarr(aslist(lval(params, a)), aslist(lval(params, b)))
+//@ spec lnow(params internal.HandlerFuncParams) []string = aslist(lval(params, lkey(params)))
+// other keys of the database and other databases are untouched (apart from expired keys being collected)
+//@ spec lothers(params internal.HandlerFuncParams) bool = forall k string :: k != lkey(params) && has($srv.store[dbof(params.Context)], k) ==> old(has($srv.store[dbof(params.Context)], k)) && $srv.store[dbof(params.Context)][k] == old($srv.store[dbof(params.Context)][k])
+
+//@ func handleLSet props C15,C12
+//@   requires generic.henv(params)
+//@   assumes own-cmd: len(params.Command) >= 2 ==> disjointarr(params.Command, $srv.keysWithExpiry.keys[dbof(params.Context)])
+//@   assumes own-list: len(params.Command) >= 2 && islist(lval(params, lkey(params))) ==> disjointarr(aslist(lval(params, lkey(params))), $srv.keysWithExpiry.keys[dbof(params.Context)]) && disjointarr(aslist(lval(params, lkey(params))), params.Command)
+//@   assumes own-all: lown(params)
+//@   ensures {C15} owned: lown(params)
+//@   ensures {C15} arity: len(params.Command) != 4 ==> result1 != nil
+//@   ensures {C15} absent: len(params.Command) == 4 && !old(live(params, lkey(params))) ==> result1 != nil
+//@   ensures {C15} wrongtype: len(params.Command) == 4 && old(live(params, lkey(params))) && !old(islist(lval(params, lkey(params)))) ==> result1 != nil && lval(params, lkey(params)) == old(lval(params, lkey(params)))
+//@   ensures {C15} badindex: len(params.Command) == 4 && onlist(params) && (!atoiok(params.Command[2]) || !(0 <= nidx(len(l0(params)), atoi(params.Command[2])) && nidx(len(l0(params)), atoi(params.Command[2])) < len(l0(params)))) ==> result1 != nil && lcontent(params)
+//@   ensures {C15} set: result1 == nil ==> onlist(params) && islist(lval(params, lkey(params))) && len(lnow(params)) == len(l0(params)) && (forall j int :: 0 <= j && j < len(l0(params)) ==> lnow(params)[j] == (j == nidx(len(l0(params)), atoi(params.Command[2])) ? params.Command[3] : old(aslist(lval(params, lkey(params)))[j])))
+//@   ensures {C15,C20} others: lothers(params)
+
+// LTRIM keeps the inclusive range [lo, hi] of the list; an empty range removes the key.
+//@ func handleLTrim props C15,C12
+//@   requires generic.henv(params)
+//@   assumes own-cmd: len(params.Command) >= 2 ==> disjointarr(params.Command, $srv.keysWithExpiry.keys[dbof(params.Context)])
+//@   assumes own-list: len(params.Command) >= 2 && islist(lval(params, lkey(params))) ==> disjointarr(aslist(lval(params, lkey(params))), $srv.keysWithExpiry.keys[dbof(params.Context)])
+//@   assumes own-all: lown(params)
+//@   ensures {C15} owned: lown(params)
+//@   ensures {C15} arity: len(params.Command) != 4 ==> result1 != nil
+//@   ensures {C15} absent: len(params.Command) == 4 && !old(live(params, lkey(params))) ==> result1 == nil && !live(params, lkey(params))
+//@   ensures {C15} wrongtype: len(params.Command) == 4 && old(live(params, lkey(params))) && atoiok(carg(params, 2)) && atoiok(carg(params, 3)) && !old(islist(lval(params, lkey(params)))) ==> result1 != nil && lval(params, lkey(params)) == old(lval(params, lkey(params)))
+//@   ensures {C15} badindex: len(params.Command) == 4 && old(live(params, lkey(params))) && (!atoiok(carg(params, 2)) || !atoiok(carg(params, 3))) ==> result1 != nil
+//@   ensures {C15} emptied: result1 == nil && len(params.Command) == 4 && onlist(params) && (lo(len(l0(params)), atoi(carg(params, 2))) > hi(len(l0(params)), atoi(carg(params, 3))) || lo(len(l0(params)), atoi(carg(params, 2))) >= len(l0(params))) ==> !has($srv.store[dbof(params.Context)], lkey(params))
+//@   ensures {C15} kept: result1 == nil && len(params.Command) == 4 && onlist(params) && !(lo(len(l0(params)), atoi(carg(params, 2))) > hi(len(l0(params)), atoi(carg(params, 3))) || lo(len(l0(params)), atoi(carg(params, 2))) >= len(l0(params))) ==> islist(lval(params, lkey(params))) && len(lnow(params)) == hi(len(l0(params)), atoi(carg(params, 3))) - lo(len(l0(params)), atoi(carg(params, 2))) + 1 && (forall j int :: 0 <= j && j < len(lnow(params)) ==> lnow(params)[j] == old(aslist(lval(params, lkey(params)))[j + lo(len(aslist(lval(params, lkey(params)))), atoi(carg(params, 2)))]))
+//@   ensures {C15,C20} others: lothers(params)
+
+// LPUSH / LPUSHX put the given elements, in argument order, in front of the list; RPUSH / RPUSHX after it.
+// nold: the length of the list before the command (0 when the key is absent).
+//@ spec nold(params internal.HandlerFuncParams) int = old(live(params, lkey(params))) ? len(l0(params)) : 0
+
+//@ func handleLPush props C15,C12
+//@   requires generic.henv(params)
+//@   assumes own-cmd: len(params.Command) >= 2 ==> disjointarr(params.Command, $srv.keysWithExpiry.keys[dbof(params.Context)])
+//@   assumes own-list: len(params.Command) >= 2 && islist(lval(params, lkey(params))) ==> disjointarr(aslist(lval(params, lkey(params))), $srv.keysWithExpiry.keys[dbof(params.Context)]) && !fresh(aslist(lval(params, lkey(params))))
+//@   assumes own-all: lown(params)
+//@   ensures {C15} owned: lown(params)
+//@   ensures {C15} arity: len(params.Command) < 3 ==> result1 != nil
+//@   ensures {C15} xabsent: len(params.Command) >= 3 && lower(carg(params, 0)) == "lpushx" && !old(live(params, lkey(params))) ==> result1 != nil && !live(params, lkey(params))
+//@   ensures {C15} wrongtype: len(params.Command) >= 3 && old(live(params, lkey(params))) && !old(islist(lval(params, lkey(params)))) ==> result1 != nil && lval(params, lkey(params)) == old(lval(params, lkey(params)))
+//@   ensures {C15} pushed: result1 == nil ==> islist(lval(params, lkey(params))) && len(lnow(params)) == nold(params) + len(params.Command) - 2
+//@   ensures {C15} pushed-new: result1 == nil ==> (forall j int :: 0 <= j && j < len(params.Command) - 2 ==> lnow(params)[j] == carg(params, j + 2))
+//@   ensures {C15} pushed-old: result1 == nil && old(live(params, lkey(params))) ==> (forall j int :: 0 <= j && j < len(l0(params)) ==> lnow(params)[j + len(params.Command) - 2] == l0(params)[j])
+//@   ensures {C15} kept-old: result1 == nil && old(live(params, lkey(params))) ==> (forall j int :: 0 <= j && j < len(l0(params)) ==> l0(params)[j] == old(aslist(lval(params, lkey(params)))[j]))
+//@   ensures {C15} reply: result1 == nil ==> bstr(result0) == ":" ++ (itoa(nold(params) + len(params.Command) - 2) ++ "\r\n")
+//@   ensures {C15,C20} others: lothers(params)
+//@   loop 0
+//@     invariant -1 <= rangeindex && rangeindex < len(params.Command) - 2 && len(newElems) == rangeindex + 1 && (newElems == nil || fresh(newElems))
+//@     invariant forall j int :: 0 <= j && j <= rangeindex ==> newElems[j] == carg(params, j + 2)
+//@     invariant forall j int :: 0 <= j && j < len(params.Command) ==> params.Command[j] == carg(params, j)
+//@     invariant forall j int :: 0 <= j && j < len(rangeslice) ==> rangeslice[j] == carg(params, j + 2)
+//@     invariant lcontent(params)
+
+//@ func handleRPush props C15,C12
+//@   requires generic.henv(params)
+//@   assumes own-cmd: len(params.Command) >= 2 ==> disjointarr(params.Command, $srv.keysWithExpiry.keys[dbof(params.Context)])
+//@   assumes own-list: len(params.Command) >= 2 && islist(lval(params, lkey(params))) ==> disjointarr(aslist(lval(params, lkey(params))), $srv.keysWithExpiry.keys[dbof(params.Context)]) && !fresh(aslist(lval(params, lkey(params))))
+//@   assumes own-all: lown(params)
+//@   ensures {C15} owned: lown(params)
+//@   ensures {C15} arity: len(params.Command) < 3 ==> result1 != nil
+//@   ensures {C15} xabsent: len(params.Command) >= 3 && lower(carg(params, 0)) == "rpushx" && !old(live(params, lkey(params))) ==> result1 != nil && !live(params, lkey(params))
+//@   ensures {C15} wrongtype: len(params.Command) >= 3 && old(live(params, lkey(params))) && !old(islist(lval(params, lkey(params)))) ==> result1 != nil && lval(params, lkey(params)) == old(lval(params, lkey(params)))
+//@   ensures {C15} pushed: result1 == nil ==> islist(lval(params, lkey(params))) && len(lnow(params)) == nold(params) + len(params.Command) - 2
+//@   ensures {C15} pushed-new: result1 == nil ==> (forall j int :: 0 <= j && j < len(params.Command) - 2 ==> lnow(params)[j + nold(params)] == carg(params, j + 2))
+//@   ensures {C15} pushed-old: result1 == nil && old(live(params, lkey(params))) ==> (forall j int :: 0 <= j && j < len(l0(params)) ==> lnow(params)[j] == l0(params)[j])
+//@   ensures {C15} kept-old: result1 == nil && old(live(params, lkey(params))) ==> (forall j int :: 0 <= j && j < len(l0(params)) ==> l0(params)[j] == old(aslist(lval(params, lkey(params)))[j]))
+//@   ensures {C15} reply: result1 == nil ==> bstr(result0) == ":" ++ (itoa(nold(params) + len(params.Command) - 2) ++ "\r\n")
+//@   ensures {C15,C20} others: lothers(params)
+//@   loop 0
+//@     invariant -1 <= rangeindex && rangeindex < len(params.Command) - 2 && len(newElems) == rangeindex + 1 && (newElems == nil || fresh(newElems))
+//@     invariant forall j int :: 0 <= j && j <= rangeindex ==> newElems[j] == carg(params, j + 2)
+//@     invariant forall j int :: 0 <= j && j < len(params.Command) ==> params.Command[j] == carg(params, j)
+//@     invariant forall j int :: 0 <= j && j < len(rangeslice) ==> rangeslice[j] == carg(params, j + 2)
+//@     invariant lcontent(params)
+
+// LPOP / RPOP remove popn elements from the head / tail: one without a count, else min(|count|, length).
+//@ spec absn(n int) int = n < 0 ? -n : n
+//@ spec popn(params internal.HandlerFuncParams) int = len(params.Command) == 3 ? (absn(atoi(carg(params, 2))) > len(l0(params)) ? len(l0(params)) : absn(atoi(carg(params, 2)))) : 1
+//@ spec isleft(params internal.HandlerFuncParams) bool = lower(carg(params, 0)) == lower("lpop")
+
+//@ func handlePop props C15,C12
+//@   requires generic.henv(params)
+//@   assumes own-cmd: len(params.Command) >= 2 ==> disjointarr(params.Command, $srv.keysWithExpiry.keys[dbof(params.Context)])
+//@   assumes own-list: len(params.Command) >= 2 && islist(lval(params, lkey(params))) ==> disjointarr(aslist(lval(params, lkey(params))), $srv.keysWithExpiry.keys[dbof(params.Context)]) && !fresh(aslist(lval(params, lkey(params))))
+//@   assumes own-all: lown(params)
+//@   ensures {C15} owned: lown(params)
+//@   ensures {C15} arity: len(params.Command) < 2 || len(params.Command) > 3 ==> result1 != nil
+//@   ensures {C15} absent: (len(params.Command) == 2 || len(params.Command) == 3) && !old(live(params, lkey(params))) ==> result1 == nil && bstr(result0) == "$-1\r\n"
+//@   ensures {C15} wrongtype: (len(params.Command) == 2 || len(params.Command) == 3) && old(live(params, lkey(params))) && !old(islist(lval(params, lkey(params)))) ==> result1 != nil && lval(params, lkey(params)) == old(lval(params, lkey(params)))
+//@   ensures {C15} badcount: len(params.Command) == 3 && onlist(params) && !atoiok(carg(params, 2)) ==> result1 != nil
+//@   ensures {C15} emptylist: (len(params.Command) == 2 || len(params.Command) == 3) && onlist(params) && (len(params.Command) == 3 ==> atoiok(carg(params, 2))) && len(l0(params)) == 0 ==> result1 == nil && bstr(result0) == "$-1\r\n"
+//@   ensures {C15} popped: result1 == nil && onlist(params) && len(l0(params)) > 0 ==> islist(lval(params, lkey(params))) && len(lnow(params)) == len(l0(params)) - popn(params)
+//@   ensures {C15} rest: result1 == nil && onlist(params) && len(l0(params)) > 0 ==> (forall j int :: 0 <= j && j < len(l0(params)) - popn(params) ==> lnow(params)[j] == l0(params)[isleft(params) ? j + popn(params) : j])
+//@   ensures {C15} single: result1 == nil && len(params.Command) == 2 && onlist(params) && len(l0(params)) > 0 ==> bstr(result0) == bulk(l0(params)[isleft(params) ? 0 : len(l0(params)) - 1])
+//@   ensures {C15} kept-old: lcontent(params)
+//@   ensures {C15,C20} others: lothers(params)
+//@   loop 0
+//@     invariant onlist(params) && len(l0(params)) > 0 && count == popn(params) && 0 <= i && i <= count && len(popped) == i && (popped == nil || fresh(popped)) && len(list) == len(l0(params)) - i
+//@     invariant list == (isleft(params) ? l0(params)[i:] : l0(params)[:len(l0(params)) - i])
+//@     invariant forall k int :: 0 <= k && k < i ==> popped[k] == l0(params)[isleft(params) ? k : len(l0(params)) - 1 - k]
+//@     invariant lcontent(params) && lpure(params)
+//@     invariant forall j int :: 0 <= j && j < len(params.Command) ==> params.Command[j] == carg(params, j)
+//@   loop 1
+//@     invariant {C15} header: i == 0 ==> res == "*" ++ (itoa(len(popped)) ++ "\r\n")
+//@     invariant 0 <= i && i <= len(popped)
+//@     iteration {C15} element: i == atheader(i) + 1 && res == atheader(res) ++ bulk(popped[atheader(i)])
+
+// LREM removes matches of the element from the head (count > 0), from the tail (count < 0) or everywhere (count == 0).
+// Decided here: when every match is requested (count == 0, or |count| >= length) none remains; the reply is the number of
+// elements removed; nothing but matches disappears is not decided (it needs a counting specification).
+//@ func handleLRem props C15,C12
+//@   requires generic.henv(params)
+//@   assumes own-cmd: len(params.Command) >= 2 ==> disjointarr(params.Command, $srv.keysWithExpiry.keys[dbof(params.Context)])
+//@   assumes own-list: len(params.Command) >= 2 && islist(lval(params, lkey(params))) ==> disjointarr(aslist(lval(params, lkey(params))), $srv.keysWithExpiry.keys[dbof(params.Context)]) && disjointarr(aslist(lval(params, lkey(params))), params.Command) && !fresh(aslist(lval(params, lkey(params))))
+//@   assumes own-all: lown(params)
+//@   ensures {C15} owned: lown(params)
+//@   ensures {C15} arity: len(params.Command) != 4 ==> result1 != nil
+//@   ensures {C15} badcount: len(params.Command) == 4 && !atoiok(carg(params, 2)) ==> result1 != nil
+//@   ensures {C15} absent: len(params.Command) == 4 && atoiok(carg(params, 2)) && !old(live(params, lkey(params))) ==> result1 == nil && bstr(result0) == ":0\r\n"
+//@   ensures {C15} wrongtype: len(params.Command) == 4 && atoiok(carg(params, 2)) && old(live(params, lkey(params))) && !old(islist(lval(params, lkey(params)))) ==> result1 != nil && lval(params, lkey(params)) == old(lval(params, lkey(params)))
+//@   ensures {C15} allgone: result1 == nil && onlist(params) && (atoi(carg(params, 2)) == 0 || absn(atoi(carg(params, 2))) >= len(l0(params))) ==> islist(lval(params, lkey(params))) && (forall j int :: 0 <= j && j < len(lnow(params)) ==> lnow(params)[j] != carg(params, 3))
+//@   ensures {C15} reply: result1 == nil && onlist(params) ==> islist(lval(params, lkey(params))) && len(lnow(params)) <= len(l0(params)) && bstr(result0) == ":" ++ (itoa(len(l0(params)) - len(lnow(params))) ++ "\r\n")
+//@   ensures {C15,C20} others: lothers(params)
+//@   loop 0
+//@     invariant onlist(params) && count > 0 && count == atoi(carg(params, 2)) && value == carg(params, 3) && removedCount == len(l0(params)) && 0 <= i && i <= len(list) && list == l0(params)[:len(list)] && len(list) <= len(l0(params))
+//@     invariant absoluteCount == absn(count) - (len(l0(params)) - len(list)) && absoluteCount >= 0
+//@     invariant forall j int :: 0 <= j && j < i ==> list[j] != value
+//@   loop 1
+//@     invariant onlist(params) && count < 0 && count == atoi(carg(params, 2)) && value == carg(params, 3) && removedCount == len(l0(params)) && 0 - 1 <= i && i < len(list) && list == l0(params)[:len(list)] && len(list) <= len(l0(params))
+//@     invariant absoluteCount == absn(count) - (len(l0(params)) - len(list)) && absoluteCount >= 0
+//@     invariant forall j int :: i < j && j < len(list) ==> list[j] != value
+//@   loop 2
+//@     invariant onlist(params) && count == 0 && count == atoi(carg(params, 2)) && value == carg(params, 3) && removedCount == len(l0(params)) && 0 <= i && i <= len(list) && list == l0(params)[:len(list)] && len(list) <= len(l0(params))
+//@     invariant forall j int :: 0 <= j && j < i ==> list[j] != value
+
+// LMOVE takes one element from the head / tail of the source and puts it at the head / tail of the destination.
+//@ spec msrc(params internal.HandlerFuncParams) string = old(params.Command[1])
+//@ spec mdst(params internal.HandlerFuncParams) string = old(params.Command[2])
+//@ spec mlist0(params internal.HandlerFuncParams, k string) []string = old(aslist(lval(params, k)))
+//@ spec mlist(params internal.HandlerFuncParams, k string) []string = aslist(lval(params, k))
+//@ spec monlists(params internal.HandlerFuncParams) bool = old(live(params, msrc(params))) && old(live(params, mdst(params))) && old(islist(lval(params, msrc(params)))) && old(islist(lval(params, mdst(params))))
+//@ spec mfromleft(params internal.HandlerFuncParams) bool = lower(carg(params, 3)) == "left"
+//@ spec mtoleft(params internal.HandlerFuncParams) bool = lower(carg(params, 4)) == "left"
+// the element that moves
+//@ spec melem(params internal.HandlerFuncParams) string = old(aslist(lval(params, msrc(params)))[mfromleft(params) ? 0 : len(aslist(lval(params, msrc(params)))) - 1])
+
+//@ func handleLMove props C15,C12
+//@   requires generic.henv(params)
+//@   assumes own-cmd: len(params.Command) >= 3 ==> disjointarr(params.Command, $srv.keysWithExpiry.keys[dbof(params.Context)])
+//@   assumes own-lists: len(params.Command) >= 3 ==> (islist(lval(params, msrc(params))) ==> disjointarr(aslist(lval(params, msrc(params))), $srv.keysWithExpiry.keys[dbof(params.Context)]) && !fresh(aslist(lval(params, msrc(params))))) && (islist(lval(params, mdst(params))) ==> disjointarr(aslist(lval(params, mdst(params))), $srv.keysWithExpiry.keys[dbof(params.Context)]) && !fresh(aslist(lval(params, mdst(params))))) && (msrc(params) != mdst(params) && islist(lval(params, msrc(params))) && islist(lval(params, mdst(params))) ==> disjointarr(aslist(lval(params, msrc(params))), aslist(lval(params, mdst(params)))))
+//@   assumes own-all: lown(params)
+//@   ensures {C15} owned: lown(params)
+//@   ensures {C15} arity: len(params.Command) != 5 ==> result1 != nil
+//@   ensures {C15} badwhere: len(params.Command) == 5 && (!(lower(carg(params, 3)) == "left" || lower(carg(params, 3)) == "right") || !(lower(carg(params, 4)) == "left" || lower(carg(params, 4)) == "right")) ==> result1 != nil
+//@   ensures {C15} notlists: len(params.Command) == 5 && !monlists(params) ==> result1 != nil
+//@   ensures {C15} moved-src: result1 == nil && msrc(params) != mdst(params) ==> monlists(params) && len(mlist0(params, msrc(params))) > 0 && islist(lval(params, msrc(params))) && len(mlist(params, msrc(params))) == len(mlist0(params, msrc(params))) - 1 && (forall j int :: 0 <= j && j < len(mlist(params, msrc(params))) ==> mlist(params, msrc(params))[j] == old(aslist(lval(params, msrc(params)))[mfromleft(params) ? j + 1 : j]))
+//@   ensures {C15} moved-dst: result1 == nil && msrc(params) != mdst(params) ==> islist(lval(params, mdst(params))) && len(mlist(params, mdst(params))) == len(mlist0(params, mdst(params))) + 1 && mlist(params, mdst(params))[mtoleft(params) ? 0 : len(mlist0(params, mdst(params)))] == melem(params) && (forall j int :: 0 <= j && j < len(mlist0(params, mdst(params))) ==> mlist(params, mdst(params))[mtoleft(params) ? j + 1 : j] == old(aslist(lval(params, mdst(params)))[j]))
+//@   ensures {C15} emptysrc: len(params.Command) == 5 && monlists(params) && len(mlist0(params, msrc(params))) == 0 ==> result1 != nil
+//@   ensures {C15} rotated: result1 == nil && msrc(params) == mdst(params) ==> monlists(params) && len(mlist0(params, msrc(params))) > 0 && islist(lval(params, msrc(params))) && len(mlist(params, msrc(params))) == len(mlist0(params, msrc(params))) && mlist(params, msrc(params))[mtoleft(params) ? 0 : len(mlist0(params, msrc(params))) - 1] == melem(params) && (forall j int :: 0 <= j && j < len(mlist0(params, msrc(params))) - 1 ==> mlist(params, msrc(params))[mtoleft(params) ? j + 1 : j] == old(aslist(lval(params, msrc(params)))[mfromleft(params) ? j + 1 : j]))
+//@   ensures {C15,C20} others: forall k string :: k != msrc(params) && k != mdst(params) && has($srv.store[dbof(params.Context)], k) ==> old(has($srv.store[dbof(params.Context)], k)) && $srv.store[dbof(params.Context)][k] == old($srv.store[dbof(params.Context)][k])
